@@ -106,6 +106,8 @@ def _requested(t: Term, plural: bool) -> bool:
     a = t[2][0]
     if a[0] == "comp" and len(a[3]) == 1 and not a[3][0][2] and len(a[3][0][0]) == 1 and a[2] == ("bound", a[3][0][0][0]):
         a = a[3][0][1]
+    while a[0] == "call" and a[1] in (("name", "list"), ("name", "tuple"), ("name", "sorted")) and len(a[2]) == 1 and not a[3]:
+        a = a[2][0]  # max(list(times)) is max(times)
     return a == ("sym", "times")
 
 
@@ -421,6 +423,8 @@ def r5(ctx: Ctx) -> None:
                 if bp.exit[0] != "fall":
                     continue
                 sts = [e for e in bp.events if e.kind == "store" and e.attr is None]
+                if not sts and any((not pol) and NV(c)[0] == "cmp" and NV(c)[1] == "in" and NV(c)[2] in (i1, i2) and NV(c)[3] == cid for c, pol, _ in bp.conds):
+                    continue  # a pair with a market outside the volatile ones is skipped (by falling through instead of `continue`)
                 cells = set()
                 for e in sts:
                     ix = NV(e.index)
